@@ -19,3 +19,8 @@ func (s *Service) VerifBarrier() {
 	}
 	// the consumer may still be inside send() of the no-op itself, which touches nothing observable
 }
+
+// VerifQueue reports how many notifications are waiting in the queue and how many it can hold.
+func (s *Service) VerifQueue() (pending, capacity int) {
+	return len(s.queue), cap(s.queue)
+}
